@@ -74,6 +74,41 @@ Proof.
 Qed.
 Print Assumptions C16_prefix_exact.
 
+(* the label index (kvindex/keys.go, string terms): the scan of one label's entries meets exactly the entries of that field
+   and that label -- in particular not those of a label that merely extends it --, the scan of a field's entries or terms
+   exactly those of the field; and an entry key determines (field, term, document) *)
+Theorem C16_index_prefix_exact : forall f t f' t' d, ok_id f -> ok_id t -> ok_id f' -> ok_id t' -> ok_id d ->
+  (is_prefix (entry_value_prefix f t) (entry_key f' t' d) = true <-> (f = f' /\ t = t')) /\
+  (is_prefix (entry_prefix f) (entry_key f' t' d) = true <-> f = f') /\
+  (is_prefix (term_prefix f) (term_key f' t') = true <-> f = f') /\
+  is_prefix (entry_prefix f) (term_key f' t') = false.
+Proof.
+  intros f t f' t' d Hf Ht Hf' Ht' Hd. nn.
+  assert (forall ps qs, ps <> [] -> forallb nonul ps = true -> qs <> [] -> forallb nonul qs = true ->
+     (is_prefix (join (ps ++ [[]])) (join qs) = true <-> exists rest, rest <> [] /\ qs = ps ++ rest)) as P
+    by (intros; now apply prefix_components).
+  split; [|split; [|split]].
+  - split; [fw P [tag_i; f; ttype_string; t] | intros [-> ->]; bw P [tag_i; f'; ttype_string; t'] [d]].
+  - split; [fw P [tag_i; f] | intros ->; bw P [tag_i; f'] [ttype_string; t'; d]].
+  - split; [fw P [tag_t; f] | intros ->; bw P [tag_t; f'] [ttype_string; t']].
+  - reflexivity.
+Qed.
+Print Assumptions C16_index_prefix_exact.
+
+Theorem C16_index_distinct : forall f t d f' t' d', ok_id f -> ok_id t -> ok_id d -> ok_id f' -> ok_id t' -> ok_id d' ->
+  entry_key f t d = entry_key f' t' d' -> (f, t, d) = (f', t', d').
+Proof.
+  intros f t d f' t' d' Hf Ht Hd Hf' Ht' Hd' H. nn.
+  apply join_inj in H; try discriminate; simpl; rewrite ?Hf, ?Ht, ?Hd, ?Hf', ?Ht', ?Hd'; auto. inversion H; auto.
+Qed.
+Print Assumptions C16_index_distinct.
+
+(* without the trailing separator the scan of label "L" would also meet the entries of "LL" *)
+Example C16_index_separator_needed :
+  is_prefix (join [tag_i; [102]; ttype_string; [76]])%N (entry_key [102] [76; 76] [100])%N = true /\
+  is_prefix (entry_value_prefix [102] [76])%N (entry_key [102] [76; 76] [100])%N = false.
+Proof. vm_compute. auto. Qed.
+
 (* the guard is necessary: with a NUL inside an id the parse is wrong and two vertices collide in scans
    (this was the behaviour of the pinned tree before the validation fix) *)
 Example C16_nul_breaks_parse :
